@@ -45,6 +45,15 @@ def lib() -> Lib:
     return _LIB
 
 
+# keyword names a user function may well have - and a careless helper inside the library, too
+AWKWARD_KW = ["func", "group", "group_name", "self", "args", "kwargs", "num", "end_callback", "cancel_callback", "awaitable", "task_id",
+              "coroutine_function", "name", "cls", "pool", "function", "coroutine", "callback", "loop", "msg"]
+
+
+def kw_key(offset: Any, k: int) -> str:
+    return f"k{k}" if offset is None else AWKWARD_KW[(offset + k) % len(AWKWARD_KW)]
+
+
 class Result:
     def __init__(self) -> None:
         self.violations: List[dict] = []
@@ -88,7 +97,7 @@ class Run(Oracles):
                 ws = spec.get("worker", {})
                 pm.s_args = tuple(Sentinel(f"p{i}a{k}") for k in range(ws.get("nargs", 0)))  # type: ignore[attr-defined]
                 nk = ws.get("nkw", 0)
-                pm.s_kwargs = None if nk < 0 else {f"k{k}": Sentinel(f"p{i}k{k}") for k in range(nk)}  # type: ignore[attr-defined]
+                pm.s_kwargs = None if nk < 0 else {kw_key(ws.get("kwkeys"), k): Sentinel(f"p{i}k{k}") for k in range(nk)}  # type: ignore[attr-defined]
                 fn = w.make_worker(lambda pm=pm: self.resolve_simple(pm), ws, plain=False)
                 pm.pool = L.SimpleTaskPool(
                     fn, args=pm.s_args, kwargs=pm.s_kwargs,  # type: ignore[attr-defined]
@@ -341,7 +350,7 @@ class Run(Oracles):
                 rm.args = tuple("abc"[:na])        # a string is an iterable of positional arguments like any other
                 rm.args_eq = True  # type: ignore[attr-defined]
             nk = spec.get("nkw", 0)
-            rm.kwargs = None if nk < 0 else {f"k{k}": Sentinel(f"r{rm.rid}k{k}") for k in range(nk)}
+            rm.kwargs = None if nk < 0 else {kw_key(spec.get("kwkeys"), k): Sentinel(f"r{rm.rid}k{k}") for k in range(nk)}
             if "num" in spec:
                 kw["num"] = spec["num"]
             if na or spec.get("pass_args"):
